@@ -54,22 +54,28 @@ def _local_table(fn):
     wlines = {}
     uses = {}
 
-    def w(name, line):
+    wnodes = {}
+    unodes = {}
+
+    def w(name, line, node=None):
         written.add(name)
         wlines.setdefault(name, []).append(line)
+        if node is not None:
+            wnodes.setdefault(name, []).append(node)
     for n in body.walk():
         if n.k == 'VarDecl' and n.n:
             decls.setdefault(n.n, []).append(n)
         if n.k == 'DeclRefExpr' and n.d.get('local') and n.n:
             uses.setdefault(n.n, []).append(n.l)
+            unodes.setdefault(n.n, []).append(n)
         if n.k == 'BinaryOperator' and n.o == '=' and len(n.c) == 2:
-            w(_raw_target(n.c[0]), n.l)
+            w(_raw_target(n.c[0]), n.l, n)
         elif n.k == 'CompoundAssignOperator' and n.c:
-            w(_raw_target(n.c[0]), n.l)
+            w(_raw_target(n.c[0]), n.l, n)
         elif n.k == 'UnaryOperator' and n.o in ('++', '--') and n.c:
-            w(_raw_target(n.c[0]), n.l)
+            w(_raw_target(n.c[0]), n.l, n)
         elif n.k == 'CXXOperatorCallExpr' and n.o in ('=', '+=', '-=', '|=', '&=', '^=', '++', '--') and n.c:
-            w(_raw_target(n.c[0]), n.l)
+            w(_raw_target(n.c[0]), n.l, n)
         elif n.k == 'UnaryOperator' and n.o == '&' and n.c and strip_casts_raw(n.c[0]).k in REF_KINDS and strip_casts_raw(n.c[0]).d.get('local'):
             w(strip_casts_raw(n.c[0]).n, n.l)      # address taken: may be written through the pointer
     has_loop = any(n.k in ('ForStmt', 'WhileStmt', 'DoStmt', 'CXXForRangeStmt', 'GotoStmt') for n in body.walk())
@@ -96,13 +102,38 @@ def _local_table(fn):
                 # reads a member / global that this function also writes: fine only if every such write comes after the last use of the local
                 # (the flag then still says what it said when it was tested) and the function has no loop
                 last_use = max(uses.get(name, [d.l]))
-                if has_loop or not all(l > last_use or l < d.l for l in wlines.get(x.n, [])):
+                if has_loop:
                     ok = False
+                elif not all(l > last_use or l < d.l for l in wlines.get(x.n, [])):
+                    # a write between the declaration and a use (in line order) matters only if control can flow from the write to that use:
+                    # a write in one branch of an if / else-if chain never reaches the test of a later branch
+                    ok = _writes_cannot_reach_uses(fn, [wn for wn in wnodes.get(x.n, []) if d.l <= wn.l <= last_use], unodes.get(name, []))
             if not ok:
                 break
         if ok:
             t[name] = init
     return t
+
+
+def _writes_cannot_reach_uses(fn, writes, uses):
+    try:
+        for wn in writes:
+            wb = fn.block_of(wn)
+            if wb is None:
+                return False
+            for u in uses:
+                ub = fn.block_of(u)
+                if ub is None:
+                    return False
+                if ub == wb:
+                    ow, ou = fn.node_order(wn), fn.node_order(u)
+                    if ow is None or ou is None or ow[1] < ou[1]:
+                        return False
+                elif fn.paths_avoiding([x for x in fn.blocks[wb].succ if x >= 0], ub, set()):
+                    return False
+        return True
+    except Exception:
+        return False
 
 
 def resolve_local(n):
